@@ -1,1 +1,535 @@
-//! C04: not implemented yet.
+//! C04 — leap-second announcements follow a strict majority of the selected sources.
+//!
+//! Engine E-IN, three drivers:
+//!
+//! (v) **vote**: every leap vector over {NoWarning, Leap61, Leap59, Unknown}^n, n <= 7
+//!     (quick) / 9 (thorough), handed as the *selection* to the real `combine` (which calls
+//!     the private `vote_leap`) through the kalman probe.
+//! (s) **select + vote**: every vector of n <= 4 (quick) / 5 (thorough) candidates over
+//!     {5 leap values} x {agreeing group, outlier group} through the real `select` then
+//!     `combine`: the vote must be a function of the selected sources only.
+//! (e) **end to end**: fresh `KalmanClockController` over a recording clock; the previous
+//!     indicator (initial Unknown / NoWarning / Leap61 / Leap59) is first established
+//!     through the API with a separate source that is then removed; then n <= 4 (quick) /
+//!     5 (thorough) sources over {5 leap values} x {agreeing, outlier, agreeing but flagged
+//!     unusable}, one real measurement each through the real source controllers, and one
+//!     deciding `source_message`. Observed: the `status_update` calls on the clock (what
+//!     the kernel gets) and `TimeSnapshot.leap_indicator` (what clients are told).
+//!
+//! Oracle (from the statement): selected = the larger of the usable synchronised groups
+//! (none on a draw); known = selected sources whose leap is not Unknown; an indicator l in
+//! {NoWarning, Leap61, Leap59} wins iff 2*votes(l) > known. Winner => exactly one
+//! `status_update(l)` and snapshot = l; no winner => no call and the previous value kept.
+use super::c03::{
+    Call, Ctl, OneWay, RecClock, Snap, TwoWay, steering_calls, t0, two_way_message, whole_seconds,
+};
+use super::common::{self, Ctx};
+use crate::{
+    ClockId,
+    algorithm::{AlgorithmConfig, InternalTimeSyncController, KalmanSourceMessage},
+    config::SynchronizationConfig,
+    packet::NtpLeapIndicator,
+};
+
+const LEAPS: [NtpLeapIndicator; 5] = [
+    NtpLeapIndicator::NoWarning,
+    NtpLeapIndicator::Leap61,
+    NtpLeapIndicator::Leap59,
+    NtpLeapIndicator::Unknown,
+    NtpLeapIndicator::Unsynchronized,
+];
+const UNKNOWN: usize = 3;
+const UNSYNC: usize = 4;
+
+fn code(l: NtpLeapIndicator) -> usize {
+    LEAPS.iter().position(|x| *x == l).unwrap()
+}
+
+/// The statement's vote over the leap codes of the selected sources.
+fn winner(selected: &[usize]) -> Option<usize> {
+    let known = selected.iter().filter(|l| **l != UNKNOWN).count();
+    let mut w = None;
+    for l in 0..3 {
+        let votes = selected.iter().filter(|x| **x == l).count();
+        if 2 * votes > known {
+            assert!(w.is_none(), "two strict majorities");
+            w = Some(l);
+        }
+    }
+    w
+}
+
+fn words(xs: &[usize]) -> String {
+    xs.iter().map(|x| x.to_string()).collect::<Vec<_>>().join(",")
+}
+
+// ---------------------------------------------------------------------------------
+// (v) vote on a given selection
+// ---------------------------------------------------------------------------------
+
+fn v_case(leaps: &[usize]) -> (Option<usize>, Result<(bool, Option<usize>), String>, Vec<(&'static str, String)>) {
+    let want = winner(leaps);
+    let sel: Vec<Snap> = leaps
+        .iter()
+        .enumerate()
+        .map(|(i, l)| (i as u64, 0.0, 1.0 / 1024.0, 1.0 / 1024.0, None, LEAPS[*l]))
+        .collect();
+    let algo = AlgorithmConfig::default();
+    let got = common::catch(|| algo.verif_gb_combine_leap(&sel)).map(|(some, l)| (some, l.map(code)));
+    let mut viol = Vec::new();
+    match &got {
+        Err(e) => viol.push(("C04:vote-panic", format!("combine panicked: {e}"))),
+        Ok((some, l)) => {
+            if *some == leaps.is_empty() {
+                viol.push(("C04:wrong-indicator", "combine() result presence does not match a non-empty selection".to_string()));
+            }
+            if *l != want {
+                let class = if want.is_none() { "C04:no-majority-indicator-set" } else { "C04:wrong-indicator" };
+                viol.push((class, format!("vote over {:?} gives {:?}, strict majority of the known ones says {:?}", leaps, l, want)));
+            }
+        }
+    }
+    (want, got, viol)
+}
+
+fn run_vote(ctx: &Ctx, n: usize) {
+    let total = common::pow(4, n);
+    let mut by_outcome = [0u64; 4];
+    for x in 0..total {
+        let leaps = common::word_of(x, 4, n);
+        let (want, _got, viol) = v_case(&leaps);
+        ctx.inc("evaluations");
+        ctx.inc("vote_cases");
+        ctx.inc("impl_calls");
+        by_outcome[want.unwrap_or(3)] += 1;
+        if n >= 2 {
+            ctx.distinct(common::hash_of(&("v", &leaps)));
+        }
+        for (class, what) in viol {
+            ctx.violation(class, format!("vote n={n}: {what}"), format!("v;leaps={}", words(&leaps)));
+        }
+        if n == 5 && x % 211 == 7 {
+            ctx.sample(format!("vote over {:?} -> {:?}", leaps.iter().map(|l| LEAPS[*l]).collect::<Vec<_>>(), want.map(|l| LEAPS[l])));
+        }
+    }
+    ctx.add("vote_expect_nowarning", by_outcome[0]);
+    ctx.add("vote_expect_leap61", by_outcome[1]);
+    ctx.add("vote_expect_leap59", by_outcome[2]);
+    ctx.add("vote_expect_no_majority", by_outcome[3]);
+}
+
+// ---------------------------------------------------------------------------------
+// (s) select + vote
+// ---------------------------------------------------------------------------------
+
+/// symbol = leap * 2 + group (0 = agreeing around 0, 1 = outlier around 100/1024 s)
+fn s_expected(word: &[usize]) -> (Vec<usize>, Option<usize>) {
+    let synced = |g: usize| -> Vec<usize> {
+        word.iter()
+            .enumerate()
+            .filter(|(_, s)| **s % 2 == g && **s / 2 != UNSYNC)
+            .map(|(i, _)| i)
+            .collect()
+    };
+    let (a, o) = (synced(0), synced(1));
+    let sel = if a.len() > o.len() { a } else if o.len() > a.len() { o } else { vec![] };
+    let leaps: Vec<usize> = sel.iter().map(|i| word[*i] / 2).collect();
+    let w = if sel.is_empty() { None } else { winner(&leaps) };
+    (sel, w)
+}
+
+fn s_case(word: &[usize]) -> (Vec<usize>, Option<usize>, String, Vec<(&'static str, String)>) {
+    let (want_sel, want) = s_expected(word);
+    let cands: Vec<Snap> = word
+        .iter()
+        .enumerate()
+        .map(|(i, s)| {
+            let off = if s % 2 == 0 { 0.0 } else { 100.0 / 1024.0 };
+            (i as u64, off, 2.0 / 1024.0, 16.0 / 1024.0, None, LEAPS[s / 2])
+        })
+        .collect();
+    let algo = AlgorithmConfig::default();
+    let got = common::catch(|| algo.verif_gb_select_combine(1, &cands));
+    let mut viol = Vec::new();
+    let obs;
+    match got {
+        Err(e) => {
+            obs = format!("panic {e}");
+            viol.push(("C04:vote-panic", format!("select/combine panicked: {e}")));
+        }
+        Ok((selected, used, leap)) => {
+            let mut sel: Vec<usize> = selected.iter().map(|x| *x as usize).collect();
+            sel.sort_unstable();
+            let leap = leap.map(code);
+            obs = format!("selected={sel:?} used={used:?} leap={leap:?}");
+            if sel != want_sel {
+                viol.push(("C04:selection-mismatch", format!("selected {sel:?}, the larger synchronised group is {want_sel:?}")));
+            } else if leap != want {
+                let class = if want.is_none() { "C04:no-majority-indicator-set" } else { "C04:wrong-indicator" };
+                viol.push((class, format!("indicator {leap:?} but the selected sources {want_sel:?} vote {want:?}")));
+            }
+        }
+    }
+    (want_sel, want, obs, viol)
+}
+
+fn run_select_vote(ctx: &Ctx, n: usize) {
+    let total = common::pow(10, n);
+    const CH: u64 = 1024;
+    common::par_for(total.div_ceil(CH), 1, |c| {
+        let mut cases = 0u64;
+        let mut with_unselected = 0u64;
+        let mut winners = 0u64;
+        let mut distinct = Vec::new();
+        for x in c * CH..((c + 1) * CH).min(total) {
+            let word = common::word_of(x, 10, n);
+            let (sel, want, _obs, viol) = s_case(&word);
+            cases += 1;
+            if !sel.is_empty() && sel.len() < n {
+                with_unselected += 1;
+                distinct.push(common::hash_of(&("s", &word)));
+            }
+            if want.is_some() {
+                winners += 1;
+            }
+            for (class, what) in viol {
+                ctx.violation(class, format!("select+vote n={n}: {what}"), format!("s;syms={}", words(&word)));
+            }
+        }
+        ctx.add("evaluations", cases);
+        ctx.add("impl_calls", 2 * cases);
+        ctx.add("selectvote_cases", cases);
+        ctx.add("selectvote_cases_with_unselected_sources", with_unselected);
+        ctx.add("selectvote_expect_majority", winners);
+        ctx.distinct_many(distinct);
+    });
+}
+
+// ---------------------------------------------------------------------------------
+// (e) end to end
+// ---------------------------------------------------------------------------------
+
+/// symbol = leap * 3 + role; role 0 = agreeing (offset 0 s), 1 = outlier (offset 30 s),
+/// 2 = agreeing but flagged unusable
+const ROLES: usize = 3;
+/// previous indicator: 0 = initial (Unknown after take_control), 1..=3 established NoWarning/Leap61/Leap59
+const PREVS: usize = 4;
+
+fn e_expected(word: &[usize]) -> (Vec<u64>, Option<usize>) {
+    let group = |role: usize| -> Vec<u64> {
+        word.iter()
+            .enumerate()
+            .filter(|(_, s)| **s % ROLES == role && **s / ROLES != UNSYNC)
+            .map(|(i, _)| i as u64)
+            .collect()
+    };
+    let (a, o) = (group(0), group(1));
+    let sel = if a.len() > o.len() { a } else if o.len() > a.len() { o } else { vec![] };
+    let leaps: Vec<usize> = sel.iter().map(|i| word[*i as usize] / ROLES).collect();
+    let w = if sel.is_empty() { None } else { winner(&leaps) };
+    (sel, w)
+}
+
+fn e_algo() -> AlgorithmConfig {
+    AlgorithmConfig {
+        maximum_source_uncertainty: 4.0,
+        range_statistical_weight: 0.0,
+        range_delay_weight: 1.0,
+        ..AlgorithmConfig::default()
+    }
+}
+
+#[derive(Debug, Clone, PartialEq)]
+struct EObs {
+    prev_established: usize,
+    early_status: usize,
+    early_leap: usize,
+    status: Vec<usize>,
+    snapshot_leap: usize,
+    controller_leap: usize,
+    used: Option<Vec<u64>>,
+    steered: bool,
+}
+
+fn e_run(word: &[usize], prev: usize, trigger: usize) -> EObs {
+    let clock = RecClock::new(t0());
+    let sync = SynchronizationConfig {
+        minimum_agreeing_sources: 1,
+        ..SynchronizationConfig::default()
+    };
+    let mut ctl = Ctl::new(clock.clone(), sync, e_algo()).expect("controller");
+    ctl.take_control().expect("take_control");
+    // establish the previous indicator through the API, with a source that then goes away
+    if prev > 0 {
+        let (src, m) = two_way_message(&mut ctl, 1000, 0, 1, LEAPS[prev - 1]);
+        ctl.source_update(ClockId(1000), true);
+        ctl.source_message(ClockId(1000), m.expect("snapshot"));
+        ctl.remove_source(ClockId(1000));
+        drop(src);
+    }
+    let prev_established = code(ctl.verif_gb_timedata().leap_indicator);
+    clock.take();
+    let mut keep: Vec<TwoWay> = Vec::new();
+    let mut msgs: Vec<KalmanSourceMessage> = Vec::new();
+    for (i, s) in word.iter().enumerate() {
+        let off = if s % ROLES == 1 { 30 } else { 0 };
+        let (src, m) = two_way_message(&mut ctl, i as u64, off, 1, LEAPS[s / ROLES]);
+        keep.push(src);
+        msgs.push(m.expect("snapshot"));
+    }
+    for i in 0..word.len() {
+        ctl.source_update(ClockId(i as u64), false);
+    }
+    for (i, m) in msgs.iter().enumerate() {
+        ctl.source_message(ClockId(i as u64), *m);
+    }
+    let early = clock.take();
+    let early_leap = code(ctl.verif_gb_timedata().leap_indicator);
+    for (i, s) in word.iter().enumerate() {
+        ctl.source_update(ClockId(i as u64), s % ROLES != 2);
+    }
+    let u = ctl.source_message(ClockId(trigger as u64), msgs[trigger]);
+    let log = clock.take();
+    EObs {
+        prev_established,
+        early_status: early.iter().filter(|c| matches!(c, Call::Status(_))).count(),
+        early_leap,
+        status: log
+            .iter()
+            .filter_map(|c| if let Call::Status(l) = c { Some(code(*l)) } else { None })
+            .collect(),
+        snapshot_leap: u.time_snapshot.map(|t| code(t.leap_indicator)).unwrap_or(usize::MAX),
+        controller_leap: code(ctl.verif_gb_timedata().leap_indicator),
+        used: u.used_sources.map(|v| {
+            let mut v: Vec<u64> = v.iter().map(|c| c.0).collect();
+            v.sort_unstable();
+            v
+        }),
+        steered: steering_calls(&log) > 0,
+    }
+}
+
+fn e_judge(word: &[usize], prev: usize, o: &EObs) -> Vec<(&'static str, String)> {
+    let mut out = Vec::new();
+    let prev_code = if prev == 0 { UNKNOWN } else { prev - 1 };
+    assert_eq!(o.prev_established, prev_code, "harness: could not establish the previous indicator");
+    let (want_sel, want) = e_expected(word);
+    if o.early_status > 0 || o.early_leap != prev_code {
+        out.push((
+            "C04:unselected-source-influence",
+            format!("indicator touched ({} status_update calls, snapshot {:?}) while every source was flagged unusable", o.early_status, LEAPS[o.early_leap]),
+        ));
+    }
+    if o.used.clone().unwrap_or_default() != want_sel {
+        out.push(("C04:selection-mismatch", format!("used {:?}, the larger usable synchronised group is {want_sel:?}", o.used)));
+        return out;
+    }
+    if o.snapshot_leap != o.controller_leap {
+        out.push(("C04:kernel-advertised-differ", "returned time snapshot and controller state disagree".to_string()));
+    }
+    match want {
+        Some(l) => {
+            if o.status != [l] {
+                out.push((
+                    "C04:wrong-indicator",
+                    format!("selected {want_sel:?} vote {:?} but status_update calls were {:?}", LEAPS[l], o.status.iter().map(|x| LEAPS[*x]).collect::<Vec<_>>()),
+                ));
+            }
+            if o.snapshot_leap != l && o.status == [l] {
+                out.push((
+                    "C04:kernel-advertised-differ",
+                    format!("selected {want_sel:?} vote {:?} but the advertised snapshot says {:?}", LEAPS[l], LEAPS.get(o.snapshot_leap)),
+                ));
+            }
+        }
+        None => {
+            if !o.status.is_empty() {
+                out.push((
+                    "C04:no-majority-indicator-set",
+                    format!("no strict majority among selected {want_sel:?} but status_update({:?}) was called", o.status.iter().map(|x| LEAPS[*x]).collect::<Vec<_>>()),
+                ));
+            }
+            if o.snapshot_leap != prev_code {
+                out.push((
+                    "C04:previous-not-kept",
+                    format!("no strict majority among selected {want_sel:?}: advertised indicator changed from {:?} to {:?}", LEAPS[prev_code], LEAPS.get(o.snapshot_leap)),
+                ));
+            }
+        }
+    }
+    out
+}
+
+fn e_trace(word: &[usize], prev: usize, trigger: usize) -> String {
+    format!("e;prev={prev};trig={trigger};syms={}", words(word))
+}
+
+fn run_e2e(ctx: &Ctx, n: usize) {
+    let k = LEAPS.len() * ROLES;
+    let total = common::pow(k, n);
+    const CH: u64 = 128;
+    common::par_for(total.div_ceil(CH), 1, |c| {
+        super::block_on_paused(async {
+            let mut cases = 0u64;
+            let mut set = [0u64; 3];
+            let mut kept = 0u64;
+            let mut kept_with_selection = 0u64;
+            let mut steered_too = 0u64;
+            let mut calls = 0u64;
+            let mut distinct = Vec::new();
+            for x in c * CH..((c + 1) * CH).min(total) {
+                let word = common::word_of(x, k, n);
+                let (want_sel, want) = e_expected(&word);
+                for prev in 0..PREVS {
+                    for trigger in 0..n {
+                        cases += 1;
+                        calls += 3 * n as u64 + 6;
+                        match common::catch(|| e_run(&word, prev, trigger)) {
+                            Err(e) => ctx.violation("C04:vote-panic", format!("controller panicked (daemon would abort): {e}"), e_trace(&word, prev, trigger)),
+                            Ok(o) => {
+                                match want {
+                                    Some(l) => set[l] += 1,
+                                    None => {
+                                        kept += 1;
+                                        if !want_sel.is_empty() {
+                                            kept_with_selection += 1;
+                                        }
+                                    }
+                                }
+                                if o.steered && want.is_some() {
+                                    steered_too += 1;
+                                }
+                                for (class, what) in e_judge(&word, prev, &o) {
+                                    ctx.violation(class, format!("end-to-end n={n}: {what}"), e_trace(&word, prev, trigger));
+                                }
+                                if x % 7919 == 11 && trigger == 0 && prev == (x as usize / 7919) % PREVS {
+                                    ctx.sample(format!(
+                                        "e2e {} -> used {:?}, status_update {:?}, advertised {:?}",
+                                        e_trace(&word, prev, trigger),
+                                        o.used,
+                                        o.status.iter().map(|x| LEAPS[*x]).collect::<Vec<_>>(),
+                                        LEAPS.get(o.snapshot_leap)
+                                    ));
+                                }
+                            }
+                        }
+                    }
+                    if !want_sel.is_empty() && want_sel.len() < n {
+                        distinct.push(common::hash_of(&("e", &word, prev)));
+                    }
+                }
+            }
+            ctx.add("evaluations", cases);
+            ctx.add("impl_calls", calls);
+            ctx.add("e2e_cases", cases);
+            ctx.add("e2e_expect_set_nowarning", set[0]);
+            ctx.add("e2e_expect_set_leap61", set[1]);
+            ctx.add("e2e_expect_set_leap59", set[2]);
+            ctx.add("e2e_expect_previous_kept", kept);
+            ctx.add("e2e_expect_previous_kept_despite_selection", kept_with_selection);
+            ctx.add("e2e_indicator_set_and_clock_steered_same_update", steered_too);
+            ctx.distinct_many(distinct);
+        });
+    });
+}
+
+// ---------------------------------------------------------------------------------
+
+fn field<'a>(parts: &'a [&'a str], key: &str) -> Option<&'a str> {
+    parts.iter().find_map(|p| p.strip_prefix(key).and_then(|r| r.strip_prefix('=')))
+}
+
+fn replay(ctx: &Ctx, trace: &str) -> String {
+    let parts: Vec<&str> = trace.split(';').collect();
+    let list = |key: &str| -> Vec<usize> {
+        field(&parts, key).unwrap_or("").split(',').filter_map(|s| s.parse().ok()).collect()
+    };
+    match parts[0] {
+        "v" => {
+            let leaps = list("leaps");
+            if leaps.iter().any(|l| *l > 3) {
+                return "bad trace".into();
+            }
+            let (want, got, viol) = v_case(&leaps);
+            for (c, w) in &viol {
+                ctx.violation(c, w.clone(), trace);
+            }
+            format!("got={got:?} want={want:?}")
+        }
+        "s" => {
+            let word = list("syms");
+            if word.iter().any(|s| *s >= 10) {
+                return "bad trace".into();
+            }
+            let (sel, want, obs, viol) = s_case(&word);
+            for (c, w) in &viol {
+                ctx.violation(c, w.clone(), trace);
+            }
+            format!("{obs} want_selected={sel:?} want={want:?}")
+        }
+        _ => {
+            let word = list("syms");
+            let prev: usize = field(&parts, "prev").and_then(|s| s.parse().ok()).unwrap_or(0);
+            let trigger: usize = field(&parts, "trig").and_then(|s| s.parse().ok()).unwrap_or(0);
+            if word.is_empty() || word.iter().any(|s| *s >= LEAPS.len() * ROLES) || prev >= PREVS || trigger >= word.len() {
+                return "bad trace".into();
+            }
+            match super::block_on_paused(async { common::catch(|| e_run(&word, prev, trigger)) }) {
+                Err(e) => {
+                    ctx.violation("C04:vote-panic", e.clone(), trace);
+                    format!("panic {e}")
+                }
+                Ok(o) => {
+                    let viol = e_judge(&word, prev, &o);
+                    for (c, w) in &viol {
+                        ctx.violation(c, w.clone(), trace);
+                    }
+                    format!("{o:?} violations={:?}", viol.iter().map(|v| v.0).collect::<Vec<_>>())
+                }
+            }
+        }
+    }
+}
+
+#[test]
+fn check() {
+    let ctx = Ctx::new("C04");
+    if let Some(t) = common::replay_trace() {
+        let a = replay(&ctx, &t);
+        let b = replay(&ctx, &t);
+        common::report_replay("C04", &a, &b, ctx.violation_count() > 0);
+        return;
+    }
+    ctx.rule(
+        "(v) every leap vector over {NoWarning,Leap61,Leap59,Unknown}^n, n<=7 quick / 9 thorough, as the selection handed to the real combine()/vote_leap; \
+         (s) every vector of n<=4 quick / 5 thorough candidates over {5 leap values} x {agreeing, outlier} through the real select()+combine(); \
+         (e) every vector of n<=4 quick / 5 thorough sources over {5 leap values} x {agreeing, outlier, agreeing-but-unusable} x previous indicator \
+         {initial Unknown, NoWarning, Leap61, Leap59} x which source's message triggers the decision, through a fresh KalmanClockController with a \
+         recording clock. Non-trivial & distinct = leap vector of >= 2 sources (v) / case in which some but not all sources are selected (s, e).",
+    );
+    ctx.assume("'sources used for synchronisation' = the selection of C03 (the larger usable synchronised agreeing group; the two groups are far apart so there are no interval ties)");
+    ctx.assume("the previous indicator can only be one the controller can reach through its API: Unknown (start) or a voted NoWarning/Leap61/Leap59");
+    let vmax = if ctx.quick() { 7 } else { 9 };
+    for n in 0..=vmax {
+        run_vote(&ctx, n);
+    }
+    ctx.set("vote_max_sources", vmax as u64);
+    let smax = if ctx.quick() { 4 } else { 5 };
+    for n in 1..=smax {
+        run_select_vote(&ctx, n);
+    }
+    ctx.set("selectvote_max_sources", smax as u64);
+    let emax = if ctx.quick() { 4 } else { 5 };
+    let mut done = 0;
+    for n in 1..=emax {
+        if ctx.over_budget() {
+            ctx.cap_hit(&format!("end-to-end n={n} not started; n<={done} complete"));
+            break;
+        }
+        run_e2e(&ctx, n);
+        done = n;
+    }
+    ctx.set("e2e_max_sources", done as u64);
+    ctx.exhaustive(true);
+    ctx.finish();
+}
